@@ -107,13 +107,21 @@ _Bool spec_all_differ_but(const struct Position *p, int but)
 { _Bool ok = 1; uint64_t key = %s; for (int i = 0; i < 800; i++) ok = ok && (i > p->_history_counter - 2 || i == but || p->_history[i] != key); return ok; }
 ''' % KEYX
     hdecl2 = HDECL + HG + 'struct Position; _Bool spec_all_differ_but(const struct Position *p, int but);\n'
-    # is_draw over the three contracts (no loop left in the query)
-    h = HSPEC + ALLD + ND + ('void h_h(void) { struct Position P = nondet_Position(); W_P = P;\n'
-                             '  G_I = nondet_int(); G_J = nondet_int(); G_ONLY = nondet_int(); G_TWO = nondet_bool(); G_ONE = nondet_bool(); G_AM1 = nondet_bool(); G_NONE = nondet_bool();\n'
-                             '  %s(&P);' % DRW + CANARY + '}\n')
-    kwd = dict(common); kwd['pre_text'] = hdecl2
-    out.append(Job('is_draw', TUS7, [DRW], h, 'h_h', contracts={DRW: c_drw, TF: c_tf}, nobody=[TF], enforce=DRW, replace=[TF],
-                   unwindset=loops_unwind([('verif_find', 6)]), timeout=1800, note='is_draw == fifty-move rule or threefold repetition or insufficient material, over the contracts of the three predicates', **kwd))
+    # is_draw over the contract of threefold_repetition.  The contract used here is the frame part of the proven one
+    # (threefold_repetition assigns nothing, proven in C07/threefold_repetition) with the returned value left abstract: the
+    # ghost G_TFV stands for "the value threefold_repetition returns on this position" (a pure deterministic function of the
+    # position, since it assigns nothing and reads only the position).  is_draw must equal
+    #        fifty-move rule  ||  that value  ||  insufficient material
+    # for every value of the ghost; the meaning of the value itself is C07/threefold_repetition's postcondition.
+    c_tfa = ('__CPROVER_requires(self->_history_counter >= 1 && self->_history_counter <= 800)\n__CPROVER_assigns()\n'
+             '__CPROVER_ensures(__CPROVER_return_value == G_TFV)\n')
+    c_drwa = ('__CPROVER_requires(wf_pos(self) && self->_history_counter >= 1 && self->_history_counter <= 800)\n__CPROVER_assigns()\n'
+              '__CPROVER_ensures(__CPROVER_return_value == (self->_half_move_counter >= 100 || G_TFV || spec_insufficient(self)))\n')
+    h = HSPEC + ND + ('void h_h(void) { struct Position P = nondet_Position(); W_P = P; G_TFV = nondet_bool();\n'
+                      '  %s(&P);' % DRW + CANARY + '}\n')
+    kwd = dict(common); kwd['pre_text'] = HDECL + '_Bool G_TFV;\n'
+    out.append(Job('is_draw', TUS7, [DRW], h, 'h_h', contracts={DRW: c_drwa, TF: c_tfa}, nobody=[TF], enforce=DRW, replace=[TF],
+                   unwindset=loops_unwind([('verif_find', 6)]), timeout=1800, note='is_draw == fifty-move rule or (the value of) threefold_repetition or insufficient material; threefold_repetition replaced by the frame part of its proven contract with an abstract result', **kwd))
     for fn, nm, cc, lc in ((REP, 'is_repeated', c_rep, lc_rep), (TF, 'threefold_repetition', c_tf, lc_tf)):
         h = HSPEC + ALLD + ND + ('void h_h(void) { struct Position P = nondet_Position(); W_P = P;\n'
                                  '  G_I = nondet_int(); G_J = nondet_int(); G_ONLY = nondet_int(); G_TWO = nondet_bool(); G_ONE = nondet_bool(); G_AM1 = nondet_bool(); G_NONE = nondet_bool();\n'
